@@ -44,8 +44,19 @@ PROJECT = {
     # hands the whole import of the library to a function whose parameter wants another shape: a type error of this file,
     # whichever file imported the library first
     "P.ucg": 'let render = func (cfg :: {x = ""}) => cfg.x;\nlet l = import "./L.ucg";\nlet u = render(l);\nout json {u = u};\n',
+    # evaluates, but the checker refuses a statement that is not a let (sixth round: a file whose importer was checked first
+    # must still be checked in full when it is built itself)
+    "Q.ucg": 'let port = 8080;\nout json {q = [port] + ["s"]};\n',
+    "R.ucg": 'let q = import "./Q.ucg";\nout json {r = q.port};\n',
+    # conversions that fail after part of their text was produced, and conversions of the same kinds that succeed (sixth
+    # round: a render buffer kept for the whole invocation; a converter that keeps its own buffer between conversions)
+    "V.ucg": 'out xml {root = {name = "r", attrs = {k = "v"}, children = [{name = "a"}, "t", 1]}};\n',
+    "U.ucg": 'constraint cc = in 1..3;\nout yamlmulti [{a = 1}, cc];\n',
+    "S.ucg": 'out yamlmulti [{s = 1}, {t = 2}];\n',
+    "K.ucg": 'out xml {root = {name = "k", children = ["t"]}};\n',
 }
 FILES = list(PROJECT)
+ARTIFACT_EXT = {"V.ucg": "xml", "U.ucg": "yaml", "S.ucg": "yaml", "K.ucg": "xml"}
 
 
 def make_project(d):
@@ -73,7 +84,7 @@ def clear_artifacts(d):
 
 
 def own_artifact(name):
-    return name[:-4] + ".json"
+    return name[:-4] + "." + ARTIFACT_EXT.get(name, "json")
 
 
 def failed_files(stderr, names):
@@ -113,8 +124,9 @@ def work_e3(chunk):
             bad = None
             for run_no in (1, 2):
                 clear_artifacts(d)
-                if mode == "args":
-                    rc, out, err = core.run_ucg(["build"] + list(order), cwd=d)
+                if mode in ("args", "dotargs"):
+                    # dotargs: the same files named as ./f on the command line
+                    rc, out, err = core.run_ucg(["build"] + [("./" + n if mode == "dotargs" else n) for n in order], cwd=d)
                     names = list(order)
                 else:
                     rc, out, err = core.run_ucg(["build", "-r"], cwd=d)
@@ -128,7 +140,7 @@ def work_e3(chunk):
                 want_rc = 0 if all(base[n]["ok"] for n in names) else 1
                 for n in names:
                     ok_here = n not in failed
-                    kindseq = "after[%s]" % ",".join(role(x) for x in names[:names.index(n)]) if mode == "args" else "recursive"
+                    kindseq = ("after[%s]" % ",".join(role(x) for x in names[:names.index(n)]) + (":named-with-dot-slash" if mode == "dotargs" else "")) if mode != "recursive" else "recursive"
                     if ok_here != base[n]["ok"]:
                         msg = ""
                         m = re.search(r"Error building file: \S*/%s\n(.*)" % re.escape(n), err_s)
@@ -159,7 +171,8 @@ def work_e3(chunk):
 def role(n):
     return {"A.ucg": "plain", "L.ucg": "library", "B.ucg": "importer", "M.ucg": "built-and-imported", "N.ucg": "imports-built-file",
             "X.ucg": "type-error", "Y.ucg": "runtime-failure", "T.ucg": "two-spellings", "Z.ucg": "fails-after-importing-built-file",
-            "W.ucg": "fails-after-out", "H.ucg": "refused-by-checker-only", "I.ucg": "imports-inline-a-file-the-checker-refuses", "P.ucg": "passes-the-library-to-a-typed-parameter"}[n]
+            "W.ucg": "fails-after-out", "H.ucg": "refused-by-checker-only", "I.ucg": "imports-inline-a-file-the-checker-refuses", "P.ucg": "passes-the-library-to-a-typed-parameter", "Q.ucg": "refused-by-checker-in-an-out-statement", "R.ucg": "imports-by-let-a-file-the-checker-refuses",
+            "V.ucg": "xml-conversion-fails-late", "U.ucg": "yamlmulti-conversion-fails-late", "S.ucg": "yamlmulti-artifact", "K.ucg": "xml-artifact"}[n]
 
 
 # -- E2 --------------------------------------------------------------------------------------
@@ -230,10 +243,10 @@ def run(ctx):
     depth = 6 if thorough else 4
     seqlen = 4 if thorough else 3
     ctx.bounds = {"project_files": len(FILES), "e2_depth": depth, "e3_sequence_length": seqlen}
-    ctx.rule = ("project of 10 files (plain, library, importer, built-and-imported, importer of a built file, static type error, runtime "
-                "failure, one library under two spellings, failure after importing a built file, failure after out). E2: BFS over the real Environment to depth %d with events build(f), canonical "
+    ctx.rule = ("project of %d files (plain, library, importer, built-and-imported, importer of a built file, static type error, runtime "
+                "failure, one library under two spellings, failure after importing a built file, failure after out, files only the checker refuses and their importers, xml and yamlmulti conversions that fail late or succeed). E2: BFS over the real Environment to depth %d with events build(f), canonical "
                 "state key (val_cache, shape_cache, out_lock, collector), invariant result = result alone on every transition. E3: every "
-                "ordered sequence of 1..%d distinct files in one `ucg build` invocation run twice in the same directory, plus build -r." % (depth, seqlen))
+                "ordered sequence of 1..%d distinct files in one `ucg build` invocation run twice in the same directory (quick: all of length <= 2 and a sixth of length 3), the sequences of length <= 2 once more with every file named ./f, plus build -r." % (len(FILES), depth, seqlen))
     viol = []
     # E2 BFS
     seen = {}
@@ -266,8 +279,10 @@ def run(ctx):
     seqs = [(o, "args", base) for ln in range(1, seqlen + 1) for o in itertools.permutations(FILES, ln)]
     seqs.append((tuple(FILES), "recursive", base))
     if not thorough:
-        # quick: all sequences of length <= 2 and those length-3 sequences that start with each file once per pair (every ordered pair occurs as a prefix)
-        seqs = [s for s in seqs if len(s[0]) <= 2 or s[1] == "recursive"] + [(o, "args", base) for o in itertools.permutations(FILES, 3)][::3]
+        # quick: all sequences of length <= 2 and a sixth of the length-3 sequences (every ordered pair occurs as a prefix at least twice)
+        seqs = [s for s in seqs if len(s[0]) <= 2 or s[1] == "recursive"] + [(o, "args", base) for o in itertools.permutations(FILES, 3)][::6]
+    # the same files named ./f on the command line: every sequence of length <= 2 (thorough 3)
+    seqs += [(o, "dotargs", base) for ln in range(1, 4 if thorough else 3) for o in itertools.permutations(FILES, ln)]
     for part in core.pmap(work_e3, seqs, chunk=4):
         ctx.count(part["evals"], part["evals"])
         for k, v in part["hist"].items():
